@@ -51,7 +51,7 @@ URLS = [
     "http://tok@127.0.0.1:1/items?q=it's",
 ]
 HEADER_VALUES = ["plain", "it's", 'say "hi"', "back\\slash", "a: b", "é-latin", "x" * 40, "", "{json: [1]}", "- dash", "# hash", "'", "%41", "tab\tin"]
-BODIES = [None, b"", b"plain", b'{"a": "it\'s"}', b"line1\nline2", b"ctl\x01\x02\x1f", "next\x85line".encode(), "sep para ".encode(), b"\xff\xfe invalid", b"\xed\xa0\x80", b"'single' \"double\" \\back", b": colon # hash - dash", b"\t tab \r cr", "emoji \U0001f600".encode(), b"x" * 3000]
+BODIES = [None, "a \u2028 b\t\u2029 c \u2028".encode(), "x\u0085 y \u0085".encode(), b"", b"plain", b'{"a": "it\'s"}', b"line1\nline2", b"ctl\x01\x02\x1f", "next\x85line".encode(), "sep para ".encode(), b"\xff\xfe invalid", b"\xed\xa0\x80", b"'single' \"double\" \\back", b": colon # hash - dash", b"\t tab \r cr", "emoji \U0001f600".encode(), b"x" * 3000]
 
 
 def plan(tier, seed):
